@@ -116,7 +116,7 @@ theorem writeArray_decode_partial (d : ArrayData) (vs : List Val) (hw : WellForm
   refine ⟨rfl, ?_⟩
   rw [decode_norm d 0 d.len vs hw hp hd (by omega), hd]
   have := decode_len hd
-  simp [ArrowModel.C02.sliceSpec, ← this]
+  simp [sliceSpec, ← this]
 
 /-- non-vacuity: a sliced struct of (nullable int16, utf8) is in the proved grammar -/
 example : provedA ⟨.struct (.cons 0 (.prim 2) true (.cons 1 (.utf8 false) true .nil)), 2, 0, none, [],
@@ -350,5 +350,51 @@ theorem splitBatch_nonempty (size maxSize numRows : Nat) (hmax : 0 < maxSize) (h
       (0, min rp (k + 1)) :: splitLoop rp (k + 1) k (0 + min rp (k + 1)) := by
     intro rp; rw [splitLoop]; simp
   exact ⟨_, _, by rw [hl]⟩
+
+/-! ## source-shape ties -/
+
+/-- **The expressions the model mirrors still have the shape they were modelled from**: every
+`SHAPE_*` item of `tools/items/C04.py` (operand/guard/statement order of `reencode_offsets`,
+`get_byte_array_buffers`, `get_list_array_buffers`, `get_or_truncate_buffer`, the validity and
+boolean branches of `write_array_data`, `pad_to_alignment`, `MetadataLayout`, `write_encoded_data`,
+`write_continuation`, `encode_sink_buffer`, `compare_dictionaries`, `insert_column`,
+`encode_dictionaries`, `read_buffer`, `update_dictionaries`, `read_meta_len`, the file reader's
+dictionaries-first loop, `Buffer::bit_slice`, `split_batch_for_grpc_response`) is regenerated from
+the source on every run; an edit makes its item LOST and this obligation fails, so the change is
+reported even when no sampled input distinguishes it. -/
+theorem shapes_tied :
+    (SHAPE_REENCODE_WINDOW_lost ||
+      SHAPE_REENCODE_MATCH_lost ||
+      SHAPE_REENCODE_RESULT_lost ||
+      SHAPE_BYTE_ARRAY_WINDOW_lost ||
+      SHAPE_LIST_CHILD_WINDOW_lost ||
+      SHAPE_NEED_TRUNCATE_lost ||
+      SHAPE_TRUNCATE_lost ||
+      SHAPE_VALIDITY_SLICED_lost ||
+      SHAPE_VALIDITY_SYNTH_lost ||
+      SHAPE_BOOL_BIT_SLICE_lost ||
+      SHAPE_FSL_CHILD_lost ||
+      SHAPE_PAD_lost ||
+      SHAPE_LAYOUT_lost ||
+      SHAPE_ENCODED_DATA_lost ||
+      SHAPE_ALIGN_CHECK_lost ||
+      SHAPE_CONT_V5_lost ||
+      SHAPE_SINK_BUFFER_lost ||
+      SHAPE_TAIL_PAD_lost ||
+      SHAPE_COMPARE_DICT_lost ||
+      SHAPE_COMPARE_DICT_TAIL_lost ||
+      SHAPE_COMPARE_DICT_DELTA_lost ||
+      SHAPE_INSERT_NEW_lost ||
+      SHAPE_INSERT_EQUAL_lost ||
+      SHAPE_INSERT_REPLACED_lost ||
+      SHAPE_INSERT_DELTA_lost ||
+      SHAPE_ENCODE_DICT_UPDATE_lost ||
+      SHAPE_READ_BUFFER_lost ||
+      SHAPE_UPDATE_DICT_lost ||
+      SHAPE_UPDATE_DICT_CONCAT_lost ||
+      SHAPE_READ_META_LEN_lost ||
+      SHAPE_FILE_DICTS_FIRST_lost ||
+      SHAPE_BIT_SLICE_ALIGNED_lost ||
+      SHAPE_FLIGHT_SPLIT_lost) = false := by decide
 
 end ArrowModel.C04
